@@ -146,6 +146,20 @@ func c05Generate(c *mon.Ctx) {
 		}
 	}
 
+	// operands that are products [k]P computed by the library itself, for the notable scalars (0, 1, n-1, powers of two,
+	// zero limbs, the endomorphism eigenvalues, ...): whatever form Multiply leaves them in, against the oracle's [k]P
+	sp := gen.ScalarSpecials()
+	for i := 0; i < len(sp); i += c.N(5, 1) {
+		k := sp[(i+int(c.Seed))%len(sp)]
+		pv := pool.NonInf[i%len(pool.NonInf)]
+		a := mon.MkMulKElemCase(pv, k.X)
+		want := gen.PV{P: oracle.Mul(k.X, pv.P), Tag: "kP"}
+		b := mon.MkElemCase(want, gen.StructuredReprs(want.P.IsInf())[i%len(gen.StructuredReprs(want.P.IsInf()))])
+		o := mon.MkElemCase(gen.PV{P: oracle.Inf(), Tag: "O"}, gen.StructuredReprs(true)[0])
+		c.Structured(func() any { return &c05Case{A: a, B: b, Rel: "P"} })
+		c.Structured(func() any { return &c05Case{A: o, B: a, Rel: "unrelated"} })
+	}
+
 	n5, n6 := mon.MkNatElemCase(pool.All[0], 5), mon.MkNatElemCase(pool.All[0], 6)
 	c.Structured(func() any { return &c05Case{A: n5, B: n6, Rel: "P"} })
 	c.Structured(func() any { return &c05Case{A: n5, B: n5, Rel: "P"} })
